@@ -161,6 +161,22 @@ class Interp:
             if fname == "slogdet" and anysym and nout == 2:
                 self.stub("slogdet -> (1, 1/2 ln det^2)")
                 return self.slogdet(invals[0])
+            if fname == "inv" and anysym and nout == 1 and len(invals) == 1 and np.ndim(invals[0]) >= 2 and np.shape(invals[0])[-1] == np.shape(invals[0])[-2]:
+                # jnp.linalg.inv of a general square matrix (LU inside): contract = adj(A)/det(A); det != 0 is a side condition
+                self.stub("jnp.linalg.inv(A) -> adj(A)/det(A)")
+                A = self.lift_arr(invals[0])
+                n = A.shape[-1]
+                eye = np.empty((n, n), dtype=object)
+                for a_ in range(n):
+                    for b_ in range(n):
+                        eye[a_, b_] = self.ctx.ONE if a_ == b_ else self.ctx.ZERO
+                return [self.spd_solve(A, eye)]
+            if fname == "solve" and anysym and nout == 1 and len(invals) == 2 and np.ndim(invals[0]) >= 2 and np.shape(invals[0])[-1] == np.shape(invals[0])[-2]:
+                self.stub("jnp.linalg.solve(A, B) -> adj(A)/det(A) B")
+                A = self.lift_arr(invals[0]); B = self.lift_arr(invals[1])
+                if B.ndim == A.ndim - 1:
+                    return [self.spd_solve(A, B[..., None])[..., 0]]
+                return [self.spd_solve(A, B)]
             if fname == "_cholesky" and anysym:
                 out = self.eval_jaxpr(cj.jaxpr, cj.consts, *invals) if hasattr(cj, "consts") else self.eval_jaxpr(cj, [], *invals)
                 self.chol_tags[id(out[0])] = (out[0], invals[0])
